@@ -776,6 +776,8 @@ func (o *Origins) builderContent(read *ssa.Call) *Ex {
 		name := o.p.Describe(call).Name
 		switch {
 		case call == read:
+		case strings.HasSuffix(name, ").Grow") || strings.HasSuffix(name, ").Len") || strings.HasSuffix(name, ").Cap"):
+			// capacity hints and size reads do not change the content
 		case strings.HasSuffix(name, ").WriteString") || strings.HasSuffix(name, ").Write") || strings.HasSuffix(name, ").WriteByte") || strings.HasSuffix(name, ").WriteRune"):
 			if len(call.Call.Args) != 2 {
 				return nil
@@ -1333,6 +1335,12 @@ func (o *Origins) reaching(root ssa.Value, path []pathElem, at ssa.Instruction, 
 				}
 			case ssa.CallInstruction:
 				cc := x.Common()
+				// range-over-func: seq(yield) with seq an iterator over a whole collection and yield the loop body
+				// that accumulates into root: the value after the call is the accumulation over the collection
+				if e := o.rangeFuncAcc(x, root, path, der); e != nil {
+					sources = append(sources, finish(e, ovs))
+					return
+				}
 				// closure called directly that captures root?
 				if mc, ok := cc.Value.(*ssa.MakeClosure); ok {
 					for bi, bnd := range mc.Bindings {
@@ -1423,6 +1431,119 @@ func ovsSig(n int, at func(i int) (string, string)) string {
 		sb.WriteString(";")
 	}
 	return sb.String()
+}
+
+// rangeFuncAcc models `for v := range maps.Values(X) { root += g(v) }` (and maps.Keys / slices.Values): the
+// compiler turns the body into a yield closure passed to the iterator. When the closure's only write to root
+// is root = root + step on every call and it never stops the iteration (returns true only), the content of
+// root after the call is acc(+; content before; step) with the closure's parameter read as elem(X) / key(X).
+func (o *Origins) rangeFuncAcc(x ssa.CallInstruction, root ssa.Value, path []pathElem, der map[ssa.Value]bool) *Ex {
+	cc := x.Common()
+	if len(path) != 0 || len(cc.Args) != 1 || cc.IsInvoke() {
+		return nil
+	}
+	seq, ok := cc.Value.(*ssa.Call)
+	if !ok || len(seq.Call.Args) != 1 {
+		return nil
+	}
+	kind := ""
+	switch o.p.Describe(seq).Name {
+	case "maps.Values", "slices.Values":
+		kind = "elem"
+	case "maps.Keys":
+		kind = "key"
+	default:
+		return nil
+	}
+	mc, ok := cc.Args[0].(*ssa.MakeClosure)
+	if !ok {
+		return nil
+	}
+	fn, ok := mc.Fn.(*ssa.Function)
+	if !ok || len(fn.Params) != 1 || fn.Blocks == nil {
+		return nil
+	}
+	var fv *ssa.FreeVar
+	for bi, bnd := range mc.Bindings {
+		if bnd == root && bi < len(fn.FreeVars) {
+			fv = fn.FreeVars[bi]
+		} else if der[bnd] {
+			return nil
+		}
+	}
+	if fv == nil {
+		return nil
+	}
+	var st *ssa.Store
+	for _, b := range fn.Blocks {
+		for _, in := range b.Instrs {
+			switch y := in.(type) {
+			case *ssa.Store:
+				if r2, _ := addrRoot(y.Addr); r2 == ssa.Value(fv) {
+					if st != nil || y.Addr != ssa.Value(fv) {
+						return nil
+					}
+					st = y
+				}
+			case *ssa.Return:
+				if len(y.Results) != 1 || !isConstValue(y.Results[0], "true") {
+					return nil // the body can stop the iteration
+				}
+			case *ssa.MakeClosure, *ssa.Go, *ssa.Defer:
+				return nil
+			case ssa.CallInstruction:
+				for _, a := range y.Common().Args {
+					if a == ssa.Value(fv) {
+						return nil
+					}
+				}
+			}
+		}
+	}
+	if st == nil {
+		return nil
+	}
+	for _, b := range fn.Blocks {
+		if len(b.Instrs) > 0 {
+			if _, isRet := b.Instrs[len(b.Instrs)-1].(*ssa.Return); isRet && !st.Block().Dominates(b) {
+				return nil
+			}
+		}
+	}
+	bo, ok := st.Val.(*ssa.BinOp)
+	if !ok || bo.Op.String() != "+" {
+		return nil
+	}
+	isOld := func(v ssa.Value) bool {
+		u, ok := v.(*ssa.UnOp)
+		return ok && u.Op.String() == "*" && u.X == ssa.Value(fv)
+	}
+	var stepV ssa.Value
+	switch {
+	case isOld(bo.X):
+		stepV = bo.Y
+	case isOld(bo.Y):
+		stepV = bo.X
+	default:
+		return nil
+	}
+	co := o.EnterClosure(fn)
+	co.memo[fn.Params[0]] = mk(kind, "", o.Of(seq.Call.Args[0]))
+	step := co.Of(stepV)
+	before := o.reaching(root, path, x, x.Block(), instrIndex(x))
+	if before.K == "zero" {
+		if bt, ok := root.Type().Underlying().(*types.Pointer); ok {
+			if b, ok := bt.Elem().Underlying().(*types.Basic); ok && b.Info()&types.IsInteger != 0 {
+				before = mk("const", "0") // the zero value of an integer variable is the constant 0
+			}
+		}
+	}
+	return mk("acc", "+", before, step)
+}
+
+func isConstValue(v ssa.Value, lit string) bool {
+	k, ok := v.(*ssa.Const)
+	return ok && k.Value != nil && k.Value.ExactString() == lit
 }
 
 // closureStores lists the values stored by closure fn into the captured variable fv (sub-path path),
